@@ -19,6 +19,7 @@ EXPLANATION = (
     "sat output is recorded; the process exit code is the complement count. It does not execute "
     "fault sequences or schedules."
     ' Also evaluated here: the solver-reply reader of C11 R11.3 (a truncated reply must not yield a core).'
+    ' Round 4: also serialisation completeness (C11 R11.1), the per-path classification (C03 R03.1), the timeout-to-unknown mapping (C17 R17.1/R17.2) and R04.6 (results during shutdown).'
 )
 ASSUMPTIONS = [
     "CPython list.append is atomic under the GIL",
